@@ -149,7 +149,10 @@ def run(ctx):
         for path, aln in ((fr, A), (ft, T), (fr2, R2)):
             # the two alignments may come in any of the three formats (the comparison is of alignments, not of files); names longer than the block
             # formats keep (255 bytes) stay in FASTA
-            if max(len(n) for n, _ in aln) > 200 or rng.random() < 0.4:
+            # (names made of the words the format sniffer looks for stay in FASTA too: this oracle's own Clustal/MSF renderer pads names with a
+            # single blank at times, and "CLUSTAL" + " " + a row starting with W or O is then a Clustal header line for kalign_read_input --
+            # a property of that presentation, not of the comparison)
+            if max(len(n) for n, _ in aln) > 200 or rng.random() < 0.4 or any(k in n for n, _ in aln for k in ("CLUSTAL", "MSF", "multiple", "PileUp")):
                 open(path, "w").write(gen.fasta_text(aln))
             else:
                 render = rng.choice([c04.render_clustal, c04.render_msf])
